@@ -86,6 +86,13 @@ def ensure_zygote():
                         except Exception:
                             pass
                     finally:
+                        try:        # the run's private scratch directory (atexit does not run here)
+                            from . import files as _files
+                            if _files._STATE["pid"] == os.getpid() and _files._STATE["dir"]:
+                                import shutil
+                                shutil.rmtree(_files._STATE["dir"], ignore_errors=True)
+                        except Exception:
+                            pass
                         os._exit(0)
                 conn.close()
         finally:
